@@ -293,6 +293,30 @@ func (s *unpubStore) Get(string) ([]*operation.AnchoredOperation, error) {
 
 // SUTResolve resolves the history with the real OperationProcessor. order permutes the published ops returned by the store.
 func SUTResolve(pc protocol.Client, suffix string, ops []*ref.Op, order []int, opts ...document.ResolutionOption) (rm *protocol.ResolutionModel, err error) {
+	return SUTResolveSplit(pc, suffix, ops, order, nil, opts...)
+}
+
+// SUTResolveSplit is SUTResolve where split[i] routes operation i: 0 = operation store / unpublished store,
+// 1 = only through document.WithAdditionalOperations, 2 = both (a published operation known to the store AND passed as
+// additional operation must be de-duplicated by its canonical reference).
+func SUTResolveSplit(pc protocol.Client, suffix string, allOps []*ref.Op, order []int, split []int, opts ...document.ResolutionOption) (rm *protocol.ResolutionModel, err error) {
+	ops := allOps
+	if split != nil {
+		ops = nil
+		var additional []*ref.Op
+		for i, o := range allOps {
+			if split[i] != 1 {
+				ops = append(ops, o)
+			}
+			if split[i] != 0 {
+				additional = append(additional, o)
+			}
+		}
+		if len(additional) > 0 {
+			opts = append(opts, document.WithAdditionalOperations(ToAnchored(suffix, additional)))
+		}
+		order = nil
+	}
 	defer func() {
 		if r := recover(); r != nil {
 			if _, ok := r.(budgetExceeded); ok {
